@@ -1,8 +1,8 @@
 """
 C06 - output blocks tile the source exactly; paired windows cover the same ground.
 
-Leg 2: real RasterPairReader.block_pairs() vs the Lean model (`pair` op): exact on the dyadic family, tie-tolerant
-       on the decimal family.
+Leg 2: real RasterPairReader.block_pairs() vs the Lean model (`pair` op): exact on dyadic grids with power-of-two pixel sizes,
+       tie-tolerant where the pixel arithmetic is inexact (decimal family, other dyadic pixel sizes).
 Leg 3: on the code's own windows: cover count of every source pixel (= 1), in-window = out-window grown by the
        overlap clipped to the processing window, ground containment of paired windows - in exact integer units.
 """
@@ -149,7 +149,7 @@ def run(run: common.Run):
         cases.append(case)
         case['_proc_ref'] = o['proc_ref']
         line = model_line(src, ref, o['proc_ref'], case['nb'], o['shape'], tuple(case['overlap']))
-        if case['family'] == 'decimal':
+        if noisy(case):
             # the model is given the code's own processing window (compared tie-tolerantly against its definition)
             pw = o['refwin'] if o['proc_ref'] else o['srcwin']
             line += ' %d %d %d %d' % (pw[1], pw[1] + pw[3], pw[0], pw[0] + pw[2])
@@ -168,10 +168,16 @@ def run(run: common.Run):
             continue  # already reported as a failing input of the property itself
         if m == im:
             continue
-        if case['family'] == 'decimal' and tie_tolerant_equal(case, m, im):
-            run.hist['decimal: accepted at an exact rounding tie'] += 1
+        if noisy(case) and tie_tolerant_equal(case, m, im):
+            run.hist['inexact pixel arithmetic: accepted at an exact rounding tie'] += 1
             continue
         run.disagree(case, line, m, im)
+
+
+def noisy(case):
+    """pixel <-> map arithmetic is inexact: decimal family, or dyadic with a pixel size that is no power of two (the
+    code multiplies by the inverse geotransform, and e.g. 1/20 is not a binary fraction)"""
+    return rasters.noisy_edges(case['family'], case['src']['px'], case['ref']['px'])
 
 
 def parse_reply(s):
